@@ -29,11 +29,67 @@ type target struct {
 	Name   string            `json:"name"`   // Gallina name
 	Fields map[string]string `json:"fields"` // "r.start" -> "uint64": struct fields used through a parameter/receiver
 	Result string            `json:"result"` // Go type of the (first) result
+	Consts []constSrc        `json:"consts"` // files whose iota const blocks may be referenced (as pkg.Name)
+	IntParams map[string]string `json:"int_params"` // parameters of named integer types: name -> underlying go type
+}
+
+type constSrc struct {
+	File string `json:"file"`
+	Pkg  string `json:"pkg"` // qualifier used in the translated file, e.g. "sutils"
 }
 
 type env struct {
 	types  map[string]string // variable -> go type
 	fields map[string]string
+	consts map[string]string // "pkg.Name" -> decimal value
+}
+
+// values of simple iota const blocks: `Name T = iota` followed by bare names, or integer literals
+func loadConsts(repo string, srcs []constSrc) map[string]string {
+	out := map[string]string{}
+	for _, c := range srcs {
+		fset := token.NewFileSet()
+		f, err := parser.ParseFile(fset, filepath.Join(repo, c.File), nil, 0)
+		if err != nil {
+			fail("%v", err)
+		}
+		for _, d := range f.Decls {
+			g, ok := d.(*ast.GenDecl)
+			if !ok || g.Tok != token.CONST {
+				continue
+			}
+			usesIota := false
+			for i, sp := range g.Specs {
+				vs := sp.(*ast.ValueSpec)
+				if len(vs.Values) == 1 {
+					switch v := vs.Values[0].(type) {
+					case *ast.Ident:
+						usesIota = v.Name == "iota"
+					case *ast.BasicLit:
+						usesIota = false
+						if v.Kind == token.INT {
+							for _, n := range vs.Names {
+								out[c.Pkg+"."+n.Name] = v.Value
+							}
+						}
+						continue
+					default:
+						usesIota = false
+						continue
+					}
+				} else if len(vs.Values) > 1 {
+					usesIota = false
+					continue
+				}
+				if usesIota {
+					for _, n := range vs.Names {
+						out[c.Pkg+"."+n.Name] = fmt.Sprint(i)
+					}
+				}
+			}
+		}
+	}
+	return out
 }
 
 func fail(f string, a ...interface{}) { fmt.Fprintf(os.Stderr, "gotrans: "+f+"\n", a...); os.Exit(1) }
@@ -91,6 +147,9 @@ func (v *env) expr(e ast.Expr, want string) (string, string) {
 		fail("unsupported literal %s", x.Value)
 	case *ast.SelectorExpr:
 		key := typeNameOfSel(x)
+		if cv, ok := v.consts[key]; ok {
+			return cv, ""
+		}
 		t, ok := v.fields[key]
 		if !ok {
 			fail("field %s is not declared in the target spec", key)
@@ -252,6 +311,47 @@ func (v *env) stmts(l []ast.Stmt, result string) string {
 		return "(let " + id.Name + " := " + e + " in\n   " + v.stmts(l[1:], result) + ")"
 	case *ast.BlockStmt:
 		return v.stmts(append(append([]ast.Stmt{}, s.List...), l[1:]...), result)
+	case *ast.SwitchStmt:
+		if s.Init != nil || s.Tag == nil {
+			fail("unsupported switch form")
+		}
+		tag, _ := v.expr(s.Tag, "")
+		var def []ast.Stmt
+		hasDef := false
+		type arm struct {
+			cond string
+			body []ast.Stmt
+		}
+		var arms []arm
+		for _, c := range s.Body.List {
+			cc := c.(*ast.CaseClause)
+			for _, st := range cc.Body {
+				if b, ok := st.(*ast.BranchStmt); ok && b.Tok == token.FALLTHROUGH {
+					fail("fallthrough")
+				}
+			}
+			if cc.List == nil {
+				def, hasDef = cc.Body, true
+				continue
+			}
+			var cs []string
+			for _, e := range cc.List {
+				ev, _ := v.expr(e, "")
+				cs = append(cs, "("+tag+" =? "+ev+")")
+			}
+			arms = append(arms, arm{strings.Join(cs, " || "), cc.Body})
+		}
+		var tail string
+		if hasDef {
+			tail = v.stmts(append(append([]ast.Stmt{}, def...), l[1:]...), result)
+		} else {
+			tail = v.stmts(l[1:], result)
+		}
+		for i := len(arms) - 1; i >= 0; i-- {
+			body := v.stmts(append(append([]ast.Stmt{}, arms[i].body...), l[1:]...), result)
+			tail = "(if " + arms[i].cond + "\n   then " + body + "\n   else " + tail + ")"
+		}
+		return tail
 	}
 	fail("unsupported statement %T", l[0])
 	return ""
@@ -300,10 +400,13 @@ func main() {
 		if fd == nil {
 			fail("function %s (receiver %q) not found in %s", t.Func, t.Recv, t.File)
 		}
-		v := &env{types: map[string]string{}, fields: t.Fields}
+		v := &env{types: map[string]string{}, fields: t.Fields, consts: loadConsts(repo, t.Consts)}
 		var params []string
 		seen := map[string]bool{}
 		addParam := func(name, typ string) {
+			if u, ok := t.IntParams[name]; ok {
+				typ = u
+			}
 			if isInt(typ) || typ == "bool" {
 				v.types[name] = typ
 				params = append(params, name)
